@@ -81,6 +81,13 @@ var PanicClassifier func(stack string) (emulator bool, site string)
 
 // SafeExecute runs Execute and converts panics: one raised by emulator code is a violation
 // of the global "no crash" invariant, anything else is a harness fault.
+// FlakyClassProperty is implemented by properties some of whose violation classes come from truly
+// concurrent executions: for those classes a replay that happens not to reproduce does not turn the
+// observation into a harness fault.
+type FlakyClassProperty interface {
+	FlakyClass(class string) (attempts int, ok bool)
+}
+
 func SafeExecute(p Property, sc *Scenario) (res *Result) {
 	defer func() {
 		if r := recover(); r != nil {
@@ -434,6 +441,13 @@ func RunBatch(cfg BatchConfig) int {
 		attempts, tolerateFlaky := 1, false
 		if np, ok := p.(NondeterminismProperty); ok {
 			attempts, tolerateFlaky = np.ReplayAttempts(), true
+		}
+		if fp, ok := p.(FlakyClassProperty); ok {
+			// classes of violation that depend on how real threads happen to overlap (a data race seen by the
+			// race detector): observed once is observed, whether or not a particular replay overlaps again
+			if n, yes := fp.FlakyClass(firstUnknown.V.Class); yes {
+				attempts, tolerateFlaky = n, true
+			}
 		}
 		reproduced := false
 		var out []byte
